@@ -678,3 +678,47 @@ def _run(ctx, rng, quick, nmax, threads_set, impl):
             ctx.violation('HITS', 'hub / authority scores differ from the principal singular vectors (dense SVD, non-negative orientation)',
                           case=dict(m=m), connected=connected, kind='sign_rule' if max(o['row']) < 1e-9 or max(o['col']) < 1e-9 else 'value',
                           expected=[eu, ev], observed=[o['row'], o['col']])
+    # ---- the wrapper on injected singular vectors (custom SVDSolver): exact principal vectors with either global sign
+    #      and round-off-sized noise of adversarial signs on the nodes outside the dominant component
+    inj = []
+    for (connected, r, c, ent) in hcases:
+        if connected and rng.random() < 0.6:
+            continue
+        su, sv = rng.choice([1.0, -1.0]), rng.choice([1.0, -1.0])
+        mode = rng.choice(['against', 'random', 'zero'])
+
+        def noise(k, sgn):
+            if mode == 'zero':
+                return [0.0] * k
+            if mode == 'against':
+                return [-sgn * rng.choice([1e-17, 3e-18, 2e-19]) for _ in range(k)]
+            return [rng.choice([1.0, -1.0]) * rng.choice([1e-17, 3e-18, 0.0]) for _ in range(k)]
+        args = dict(m=mspec(r, c, ent), sign_u=su, sign_v=sv, noise_u=noise(r, su), noise_v=noise(c, sv))
+        res = impl(1).call('c04', 'hits_injected', args)
+        ctx.traces += 1
+        inj.append((connected, args, res))
+    iexprs, iidx = [], []
+    for k, (connected, args, res) in enumerate(inj):
+        if 'ok' in res:
+            iexprs.append('(fun p : list Q * list Q => (lq (fst p), lq (snd p))) (hits %s %s)' % (
+                clist([F(x) for x in res['ok']['raw_u']], cq), clist([F(x) for x in res['ok']['raw_v']], cq)))
+            iidx.append(k)
+    ivals = dict(zip(iidx, [(fr(a), fr(b)) for (a, b) in coq_eval('c04hinj', IMPORTS, iexprs, prelude=PRELUDE, shard=100)])) if iexprs else {}
+    for k, (connected, args, res) in enumerate(inj):
+        if 'ok' not in res:
+            ctx.count('hits_injected', ('hinj', args), True)
+            ctx.violation('HITS', 'HITS.fit with a custom SVDSolver failed', case=args, connected=connected, kind='no_result', observed=res)
+            continue
+        o = res['ok']
+        if len(o['svd_s']) > 1 and o['svd_s'][1] >= o['svd_s'][0] * (1 - 1e-6):
+            ctx.margin_dropped += 1
+            continue
+        ctx.count('hits_injected:' + ('connected' if connected else 'components'), ('hinj', args), True)
+        mu, mv_ = ivals[k]
+        if not (close(o['row'], mu, 1e-12) and close(o['col'], mv_, 1e-12)):
+            ctx.violation('model_hits', 'Coq model of the HITS wrapper differs from the implementation on injected singular vectors',
+                          case=args, expected=[[float(x) for x in mu], [float(x) for x in mv_]], observed=[o['row'], o['col']])
+        if not (close(o['row'], o['svd_u'], 1e-9) and close(o['col'], o['svd_v'], 1e-9)):
+            ctx.violation('HITS', 'hub / authority scores differ from the principal singular vectors handed back by the solver '
+                          '(up to their global sign and round-off noise on the other components)',
+                          case=args, connected=connected, kind='sign_rule', expected=[o['svd_u'], o['svd_v']], observed=[o['row'], o['col']])
